@@ -9,20 +9,22 @@ class Float(TypedField, Number):
 
     _ty = float
 
+    def _to_float(self, value):
+        if isinstance(value, int) and value is not True and value is not False:
+            try:
+                return float(value)
+            except OverflowError as ex:
+                raise ValueError(
+                    f"{self._name}: Got {value}; Expected a number in the range of a float"
+                ) from ex
+        return value
+
     def __set__(self, instance, value):
-        converted = (
-            float(value)
-            if isinstance(value, int) and value is not True and value is not False
-            else value
-        )
+        converted = self._to_float(value)
         super().__set__(instance, converted)
 
     def _validate(self, value):
-        converted = (
-            float(value)
-            if isinstance(value, int) and value is not True and value is not False
-            else value
-        )
+        converted = self._to_float(value)
         super()._validate(converted)
         Number._validate_static(self, converted)
 
